@@ -418,4 +418,346 @@ theorem lookup_mem {env : MapEnv} {name v : Str} (h : env.lookup name = some v) 
   obtain ⟨p, hp, _⟩ := h
   exact ⟨p, List.mem_of_find?_eq_some hp, by simpa using List.find?_some hp⟩
 
+/-! ### one line -/
+theorem parseProcMapsGo_cons (ps : List (Str × Str)) (l : Str) (r : List Str) :
+    parseProcMapsGo ps (l :: r) =
+      (match parseMappingEntry (replaceAll ps (removeLoggingInfo l)) with
+       | .mapping m => m :: parseProcMapsGo ps r
+       | .skip => parseProcMapsGo ps r
+       | .unrecognized =>
+         match splitEq (replaceAll ps (removeLoggingInfo l)) with
+         | some (k, v) => parseProcMapsGo (ps ++ [(36 :: trimSpace k, trimSpace v)]) r
+         | none => parseProcMapsGo ps r) := rfl
+
+theorem filler_no_dollar {f : Filler} (h : f.wf = true) : ∀ b ∈ f.print, b ≠ (36 : UInt8) := by
+  intro b hb
+  unfold Filler.print at hb
+  rcases List.mem_append.1 hb with hb | hb
+  · rw [List.mem_replicate] at hb; rw [hb.2]; decide
+  · cases hc : f.comment with
+    | none => simp [hc] at hb
+    | some t =>
+      simp only [hc, List.mem_cons] at hb
+      rcases hb with rfl | hb
+      · decide
+      · simp only [Filler.wf, hc, commentOK, List.all_eq_true, Bool.and_eq_true, bne_iff_ne, ne_eq] at h
+        intro e; subst e; exact (h 36 hb).2 rfl
+
+theorem filler_no_eq {f : Filler} (h : f.wf = true) : ∀ b ∈ f.print, b.toNat ≠ 61 := by
+  intro b hb
+  unfold Filler.print at hb
+  rcases List.mem_append.1 hb with hb | hb
+  · rw [List.mem_replicate] at hb; rw [hb.2]; decide
+  · cases hc : f.comment with
+    | none => simp [hc] at hb
+    | some t =>
+      simp only [hc, List.mem_cons] at hb
+      rcases hb with rfl | hb
+      · decide
+      · simp only [Filler.wf, hc, commentOK, List.all_eq_true, Bool.and_eq_true, bne_iff_ne, ne_eq] at h
+        exact (h b hb).1.2
+
+theorem parseProcMapsGo_fillers (env : MapEnv) (fs : List Filler) (hfs : ∀ f ∈ fs, f.wf = true) (rest : List Str) :
+    parseProcMapsGo (pairsOf env) (printFillers fs ++ rest) = parseProcMapsGo (pairsOf env) rest := by
+  induction fs with
+  | nil => rfl
+  | cons f fs ih =>
+    have hf := hfs f (by simp)
+    simp only [printFillers, List.map_cons, List.cons_append] at ih ⊢
+    rw [parseProcMapsGo_cons, removeLoggingInfo_no_colon (filler_no_colon hf), replaceAll_id env _ (filler_no_dollar hf),
+      parseMappingEntry_filler, splitEq_none _ (filler_no_eq hf)]
+    exact ih (fun g hg => hfs g (by simp [hg]))
+
+theorem fileOK_no_dollar {f : Str} (h : fileOK f = true) : ∀ b ∈ f, b ≠ (36 : UInt8) := by
+  intro b hb e
+  simp only [fileOK, Bool.and_eq_true, List.all_eq_true, bne_iff_ne, ne_eq] at h
+  subst e; exact (h.2 36 hb).2 rfl
+
+/-- the line as `parseMappingEntry` sees it -/
+theorem seen_of_log (log : Option LogPrefix) (hlog : log.all LogPrefix.wf = true) (L : Str)
+    (hL : firstBracketOK L = true) : removeLoggingInfo (optLog log ++ L) = L := by
+  cases log with
+  | none => simpa [optLog] using removeLoggingInfo_of_firstBracketOK hL
+  | some p => exact p.remove (by simpa using hlog) L
+
+theorem MapEntry.wf_fileOK {e : MapEntry} (h : e.wf = true) : e.form.file.all fileOK = true := by
+  obtain ⟨indent, ox, width, start, limit, gap, form⟩ := e
+  cases form with
+  | proc perm off dmaj dmin inode file =>
+    simp only [MapEntry.wf, Bool.and_eq_true] at h
+    exact h.2.2
+  | brief colon perm file off bid =>
+    simp only [MapEntry.wf, Bool.and_eq_true] at h
+    exact h.2.1.1.1
+
+theorem step_entry (env : MapEnv) (log : Option LogPrefix) (e : MapEntry) (hlog : log.all LogPrefix.wf = true)
+    (he : e.wf = true) (hfb : e.form.file.all firstBracketOK = true) (R : List Str) :
+    parseProcMapsGo (pairsOf env) ((MapLine.entry log e).print :: R) =
+      (match e.mapping with | some m => [m] | none => []) ++ parseProcMapsGo (pairsOf env) R := by
+  have hpost := e.Plain_post (MapEntry.wf_bidOK he)
+  have hfile := MapEntry.wf_fileOK he
+  have hnd : ∀ b ∈ e.print, b ≠ (36 : UInt8) := by
+    intro b hb
+    rw [e.print_parts] at hb
+    simp only [List.mem_append] at hb
+    rcases hb with hb | hb | hb
+    · exact (e.Plain_pre b hb).1
+    · cases hq : e.form.file with
+      | none => simp [hq, optField] at hb
+      | some f =>
+        simp only [hq, optField, List.mem_append] at hb
+        rcases hb with hb | hb
+        · exact (Plain_sp _ b hb).1
+        · exact fileOK_no_dollar (by simpa [hq] using hfile) b hb
+    · exact (hpost b hb).1
+  have hfbo : firstBracketOK e.print = true := by
+    rw [e.print_parts, firstBracketOK_append_plain_left e.Plain_pre]
+    cases hq : e.form.file with
+    | none => simpa [optField] using firstBracketOK_of_plain hpost
+    | some f =>
+      simp only [optField, List.append_assoc]
+      rw [firstBracketOK_append_plain_left (Plain_sp _)]
+      exact firstBracketOK_append_plain_right (by simpa [hq] using hfb) hpost
+  rw [parseProcMapsGo_cons]
+  simp only [MapLine.print]
+  rw [seen_of_log log hlog _ hfbo, replaceAll_id env _ hnd, parseMappingEntry_print e he]
+  cases e.mapping <;> rfl
+
+theorem trimSpace_pad (i j : Nat) (s : Str) (hne : s ≠ []) (h1 : Stops isSpace s) (h2 : Stops isSpace s.reverse) :
+    trimSpace (sp i ++ (s ++ sp j)) = s := by
+  unfold trimSpace
+  have hl : trimLeft (sp i ++ (s ++ sp j)) = s ++ sp j := trimLeft_replicate i _ (Stops_append_of_ne_nil hne h1)
+  rw [hl]
+  unfold trimRight
+  rw [List.reverse_append]
+  have hsp : ∀ b ∈ (sp j).reverse, isSpace b = true := by
+    intro b hb; simp only [sp, List.mem_reverse, List.mem_replicate] at hb; rw [hb.2]; exact isSpace_32
+  rw [dropWhile_append_stops hsp h2]; simp
+
+theorem step_attr (env : MapEnv) (log : Option LogPrefix) (indent : Nat) (name : Str) (spaced : Bool) (value : Str)
+    (hlog : log.all LogPrefix.wf = true) (hn : attrNameOK name = true) (hv : attrValueOK value = true)
+    (hfb : firstBracketOK value = true) (R : List Str) :
+    parseProcMapsGo (pairsOf env) ((MapLine.attr log indent name spaced value).print :: R) =
+      parseProcMapsGo (pairsOf (env ++ [(name, value)])) R := by
+  obtain ⟨c, t, hname, hcx, hcw⟩ := attrNameOK_head hn
+  have hword := attrNameOK_word hn
+  simp only [attrValueOK, Bool.and_eq_true, bne_iff_ne, ne_eq, List.all_eq_true] at hv
+  obtain ⟨hvne, hvall⟩ := hv
+  have heq : (if spaced then asc " = " else asc "=") = sp (if spaced then 1 else 0) ++ (61 :: sp (if spaced then 1 else 0)) := by
+    cases spaced <;> decide
+  -- bytes
+  have hwordb : ∀ b ∈ name, b ≠ 36 ∧ isBracket b = false ∧ b.toNat ≠ 61 ∧ isSpace b = false := by
+    intro b hb
+    have := hword b hb
+    simp only [isWord, isDigit, Bool.or_eq_true, decide_eq_true_eq, beq_iff_eq] at this
+    refine ⟨?_, ?_, ?_, ?_⟩
+    · intro e; subst e; revert this; decide
+    · simp only [isBracket, Bool.or_eq_false_iff, beq_eq_false_iff_ne]; omega
+    · omega
+    · simp only [isSpace, isReSpace, Bool.or_eq_false_iff, beq_eq_false_iff_ne]; omega
+  have hvalb : ∀ b ∈ value, b ≠ 36 ∧ isSpace b = false := by
+    intro b hb
+    have := hvall b hb
+    have hp := this.1.1
+    simp only [isPrint, decide_eq_true_eq] at hp
+    refine ⟨?_, ?_⟩
+    · intro e; subst e; exact this.2 rfl
+    · have h32 := this.1.2
+      simp only [isSpace, isReSpace, Bool.or_eq_false_iff, beq_eq_false_iff_ne]; omega
+  let L : Str := sp indent ++ (name ++ ((if spaced then asc " = " else asc "=") ++ value))
+  have heqP : Plain (if spaced then asc " = " else asc "=") := by cases spaced <;> decide
+  have hnd : ∀ b ∈ L, b ≠ (36 : UInt8) := by
+    intro b hb
+    simp only [L, List.mem_append] at hb
+    rcases hb with hb | hb | hb | hb
+    · exact (Plain_sp _ b hb).1
+    · exact (hwordb b hb).1
+    · exact (heqP b hb).1
+    · exact (hvalb b hb).1
+  have hfbo : firstBracketOK L = true := by
+    simp only [L]
+    rw [firstBracketOK_append_plain_left (Plain_sp _), firstBracketOK_append_left (fun b hb => (hwordb b hb).2.1),
+      firstBracketOK_append_plain_left heqP]
+    exact hfb
+  have hunrec : parseMappingEntry L = .unrecognized := by
+    have hsk : skipReSpace L = name ++ ((if spaced then asc " = " else asc "=") ++ value) := by
+      simp only [L]
+      apply skipReSpace_sp
+      rw [hname]
+      simp only [List.cons_append, Stops_cons, isReSpace, Bool.or_eq_false_iff, beq_eq_false_iff_ne]
+      have := (hwordb c (by simp [hname])).2.2.2
+      simp only [isSpace, isReSpace, Bool.or_eq_false_iff, beq_eq_false_iff_ne] at this
+      omega
+    have : matchHexRange L = none := by
+      apply matchHexRange_of_skip hsk
+      right
+      refine ⟨c, t ++ ((if spaced then asc " = " else asc "=") ++ value), by simp [hname], hcx, ?_⟩
+      intro e; subst e; revert hcx; decide
+    simp [parseMappingEntry, this]
+  have hsplit : splitEq L = some (sp indent ++ (name ++ sp (if spaced then 1 else 0)), sp (if spaced then 1 else 0) ++ value) := by
+    have e : L = (sp indent ++ (name ++ sp (if spaced then 1 else 0))) ++ 61 :: (sp (if spaced then 1 else 0) ++ value) := by
+      simp only [L, heq, List.append_assoc, List.cons_append]
+    rw [e]
+    apply splitEq_append
+    intro b hb
+    simp only [List.mem_append] at hb
+    rcases hb with hb | hb | hb
+    · simp only [sp, List.mem_replicate] at hb; rw [hb.2]; decide
+    · exact (hwordb b hb).2.2.1
+    · simp only [sp, List.mem_replicate] at hb; rw [hb.2]; decide
+  have hnne : name ≠ [] := by rw [hname]; simp
+  have hn1 : Stops isSpace name := by rw [hname]; simpa using (hwordb c (by simp [hname])).2.2.2
+  have hn2 : Stops isSpace name.reverse := by
+    cases hq : name.reverse with
+    | nil => simp
+    | cons x r =>
+      have : x ∈ name := by
+        have : x ∈ name.reverse := by rw [hq]; simp
+        simpa using this
+      simpa using (hwordb x this).2.2.2
+  have hv1 : Stops isSpace value := by
+    cases hq : value with
+    | nil => simp
+    | cons x r => simpa using (hvalb x (by simp [hq])).2
+  have hv2 : Stops isSpace value.reverse := by
+    cases hq : value.reverse with
+    | nil => simp
+    | cons x r =>
+      have : x ∈ value := by
+        have : x ∈ value.reverse := by rw [hq]; simp
+        simpa using this
+      simpa using (hvalb x this).2
+  have ht1 : trimSpace (sp indent ++ (name ++ sp (if spaced then 1 else 0))) = name := trimSpace_pad _ _ name hnne hn1 hn2
+  have ht2 : trimSpace (sp (if spaced then 1 else 0) ++ value) = value := by
+    have := trimSpace_pad (if spaced then 1 else 0) 0 value hvne hv1 hv2
+    simpa [sp] using this
+  rw [parseProcMapsGo_cons]
+  have hp : (MapLine.attr log indent name spaced value).print = optLog log ++ L := rfl
+  rw [hp, seen_of_log log hlog L hfbo, replaceAll_id env L hnd, hunrec]
+  simp only [hsplit, ht1, ht2, pairsOf_append]
+
+theorem step_entryRef (env : MapEnv) (henv : EnvOK env) (log : Option LogPrefix) (e : MapEntry) (name suffix v : Str)
+    (hlog : log.all LogPrefix.wf = true) (hn : attrNameOK name = true) (hsfx : suffixOK suffix = true)
+    (hfb : firstBracketOK suffix = true) (hl : env.lookup name = some v) (hwf : (e.withFile (v ++ suffix)).wf = true)
+    (R : List Str) :
+    parseProcMapsGo (pairsOf env) ((MapLine.entryRef log e name suffix).print :: R) =
+      (match (e.withFile (v ++ suffix)).mapping with | some m => [m] | none => []) ++ parseProcMapsGo (pairsOf env) R := by
+  have hword := attrNameOK_word hn
+  have hbid : e.bidOK = true := by rw [← e.withFile_bidOK (v ++ suffix)]; exact MapEntry.wf_bidOK hwf
+  have hpost := e.Plain_post hbid
+  have hfile := MapEntry.withFile_wf_file hwf
+  have hsfx_nd : ∀ b ∈ suffix, b ≠ (36 : UInt8) := fun b hb => fileOK_no_dollar hfile b (by simp [hb])
+  have hnameb : ∀ b ∈ name, isBracket b = false := by
+    intro b hb
+    have := hword b hb
+    simp only [isWord, isDigit, Bool.or_eq_true, decide_eq_true_eq, beq_iff_eq] at this
+    simp only [isBracket, Bool.or_eq_false_iff, beq_eq_false_iff_ne]; omega
+  -- the printed line and what the glog scanner makes of it
+  have hprint : (e.withFile (36 :: (name ++ suffix))).print = (e.pre ++ sp (e.gap + 1)) ++ (36 :: (name ++ (suffix ++ e.post))) := by
+    rw [e.withFile_print]; simp [List.append_assoc]
+  have hfbo : firstBracketOK ((e.pre ++ sp (e.gap + 1)) ++ (36 :: (name ++ (suffix ++ e.post)))) = true := by
+    rw [firstBracketOK_append_plain_left (Plain_append e.Plain_pre (Plain_sp _))]
+    rw [show (36 :: (name ++ (suffix ++ e.post)) : Str) = (36 :: name) ++ (suffix ++ e.post) by simp]
+    rw [firstBracketOK_append_left (by
+      intro b hb
+      rcases List.mem_cons.1 hb with rfl | hb
+      · decide
+      · exact hnameb b hb)]
+    exact firstBracketOK_append_plain_right hfb hpost
+  -- the replacer
+  have hS : suffix ++ e.post = [] ∨ ∃ c t, suffix ++ e.post = c :: t ∧ isWord c = false := by
+    cases hq : suffix with
+    | cons c t =>
+      right
+      refine ⟨c, t ++ e.post, by simp, ?_⟩
+      simpa [suffixOK, hq] using hsfx
+    | nil =>
+      rcases e.post_shape with h | ⟨t, h⟩
+      · left; simp [h]
+      · right; exact ⟨32, t, by simp [h], by decide⟩
+  have hpf : ∀ p ∈ env, p.1.isPrefixOf name = true → p.1 = name := by
+    obtain ⟨q, hq, hqn⟩ := lookup_mem hl
+    intro p hp hpre
+    rw [← hqn] at hpre ⊢
+    exact henv.2 p hp q hq hpre
+  have hrf := replaceFirst_ref env name (suffix ++ e.post) v hS (fun p hp => attrNameOK_word (henv.1 p hp)) hpf hl
+  have hrepl : replaceAll (pairsOf env) ((e.pre ++ sp (e.gap + 1)) ++ (36 :: (name ++ (suffix ++ e.post)))) =
+      (e.withFile (v ++ suffix)).print := by
+    unfold replaceAll
+    rw [replaceAllAux_plain env _ _ (fun b hb => (Plain_append e.Plain_pre (Plain_sp _) b hb).1),
+      replaceAllAux_key _ 36 name v _ hrf]
+    have hid := replaceAllAux_plain env (suffix ++ e.post) [] (by
+      intro b hb
+      rcases List.mem_append.1 hb with hb | hb
+      · exact hsfx_nd b hb
+      · exact (hpost b hb).1)
+    simp only [List.append_nil, replaceAllAux] at hid
+    rw [hid, e.withFile_print]
+    simp [List.append_assoc]
+  rw [parseProcMapsGo_cons]
+  simp only [MapLine.print]
+  rw [hprint, seen_of_log log hlog _ hfbo, hrepl, parseMappingEntry_print _ hwf]
+  cases (e.withFile (v ++ suffix)).mapping <;> rfl
+
+/-! ### a whole section -/
+theorem parseProcMapsGo_line (env : MapEnv) (henv : EnvOK env) (l : MapLine) (hl : l.wfIn env = true) (R : List Str) :
+    parseProcMapsGo (pairsOf env) (l.print :: R) =
+      (match (l.step env).2 with | some m => [m] | none => []) ++ parseProcMapsGo (pairsOf (l.step env).1) R ∧
+    EnvOK (l.step env).1 := by
+  cases l with
+  | entry log e =>
+    simp only [MapLine.wfIn, Bool.and_eq_true] at hl
+    exact ⟨step_entry env log e hl.1.1 hl.1.2 hl.2 R, henv⟩
+  | entryRef log e name suffix =>
+    simp only [MapLine.wfIn, Bool.and_eq_true] at hl
+    obtain ⟨⟨⟨⟨hlog, hn⟩, hsfx⟩, hfb⟩, hres⟩ := hl
+    cases hq : env.lookup name with
+    | none => simp [hq] at hres
+    | some v =>
+      simp only [hq] at hres
+      refine ⟨?_, henv⟩
+      simp only [MapLine.step, hq]
+      exact step_entryRef env henv log e name suffix v hlog hn hsfx hfb hq hres R
+  | attr log indent name spaced value =>
+    simp only [MapLine.wfIn, Bool.and_eq_true] at hl
+    obtain ⟨⟨⟨⟨hlog, hn⟩, hv⟩, hfb⟩, hpf⟩ := hl
+    exact ⟨by simpa [MapLine.step] using step_attr env log indent name spaced value hlog hn hv hfb R,
+      EnvOK_snoc henv name value hn hpf⟩
+
+theorem parseProcMapsGo_lines (env : MapEnv) (henv : EnvOK env) (es : List (List Filler × MapLine))
+    (hwf : wfLines env es = true) (fs : List Filler) (hfs : ∀ f ∈ fs, f.wf = true) :
+    parseProcMapsGo (pairsOf env) (es.flatMap (fun p => printFillers p.1 ++ [p.2.print]) ++ printFillers fs) = mappingsOf env es := by
+  induction es generalizing env with
+  | nil =>
+    have := parseProcMapsGo_fillers env fs hfs []
+    simpa [parseProcMapsGo, mappingsOf] using this
+  | cons p es ih =>
+    simp only [wfLines, Bool.and_eq_true, List.all_eq_true] at hwf
+    obtain ⟨⟨hfill, hline⟩, hrest⟩ := hwf
+    obtain ⟨h1, h2⟩ := parseProcMapsGo_line env henv p.2 hline
+      (es.flatMap (fun p => printFillers p.1 ++ [p.2.print]) ++ printFillers fs)
+    simp only [List.flatMap_cons, List.append_assoc, List.singleton_append, List.cons_append, List.nil_append]
+    rw [parseProcMapsGo_fillers env p.1 hfill, h1, ih _ h2 hrest]
+    simp only [mappingsOf]
+    cases (p.2.step env).2 <;> rfl
+
+@[simp] theorem parseProcMaps_nil : parseProcMaps [] = [] := rfl
+@[simp] theorem parseProcMapsGo_nil (ps : List (Str × Str)) : parseProcMapsGo ps [] = [] := rfl
+
+theorem parseProcMaps_bodyLines (m : MapSection) (h : m.wf = true) : parseProcMaps m.bodyLines = m.mappings := by
+  simp only [MapSection.wf, Bool.and_eq_true, List.all_eq_true] at h
+  exact parseProcMapsGo_lines [] EnvOK_nil m.entries h.1 m.post h.2
+
+/-- after a record loop that stopped on the sentinel line (or ran out of lines). -/
+theorem parseAdditionalSections_tail (sentinel : Str) (hs : isMemoryMapSentinel sentinel = true)
+    (map : Option MapSection) (h : ∀ m, map = some m → m.wf = true) :
+    (match tailLines sentinel map with
+     | [] => parseAdditionalSections [] []
+     | cur :: rest => parseAdditionalSections cur rest) = tailMappings map := by
+  cases map with
+  | none => simp [tailLines, tailMappings, parseAdditionalSections, skipToSentinel]
+  | some m =>
+    simp only [tailLines, tailMappings, parseAdditionalSections, hs, if_true]
+    exact parseProcMaps_bodyLines m (h m rfl)
+
 end PV.Legacy
